@@ -292,7 +292,8 @@ def oracle_tuned(c, r):
 
 def combined_cases(tier):
     ks = (1, 2, 3, 4) if tier == "quick" else (1, 2, 3, 4, 5, 6)
-    return [{"p": p, "k": k, "scale": [1.0, 2.3][(p + k) % 2]} for p in range(2, 65) for k in ks]
+    top = 3000 if tier == "quick" else 100000
+    return [{"p": p, "k": k, "scale": [1.0, 2.3][(p + k) % 2], "top": top} for p in range(2, 65) for k in ks]
 
 
 def impl_combined(c):
@@ -301,7 +302,7 @@ def impl_combined(c):
 
     p, k, s = c["p"], c["k"], c["scale"]
     ns, v = list(range(2, 61)), 60.0
-    while v < (3000 if len(combined_cases("quick")) and c["k"] <= 4 else 100000):
+    while v < c.get("top", 3000):
         v *= 1.07
         ns.append(int(v))
     try:
